@@ -47,3 +47,44 @@ fn canary_free_variables() {
     free_variables(&v1, 0, &mut set);
     assert(!set@.contains(1usize));
 }
+
+fn witness_u2() {
+    broadcast use group_ok;
+    let t = Term { source_range: None, variant: True };
+    let a = Term { source_range: None, variant: Type };
+    let b = Term { source_range: None, variant: Integer };
+    assert(view(t) == STerm::Node(Kind::True, s0()));
+    assert(view(a) == STerm::Node(Kind::Type, s0()));
+    assert(view(b) == STerm::Node(Kind::Integer, s0()));
+    let v = is_value(&t);
+    let cond = Term { source_range: None, variant: If(Rc::new(t), Rc::new(a), Rc::new(b)) };
+    assert(view(cond) == STerm::Node(Kind::If, s3(view(t), view(a), view(b))));
+    let s = step(&cond);
+    let e = evaluate(&cond);
+}
+fn canary_is_value() {
+    let t = Term { source_range: None, variant: True };
+    let v = is_value(&t);
+    assert(!v);
+}
+fn canary_step() {
+    broadcast use {group_ok, group_step};
+    let t = Term { source_range: None, variant: True };
+    let a = Term { source_range: None, variant: Type };
+    let b = Term { source_range: None, variant: Integer };
+    assert(view(t) == STerm::Node(Kind::True, s0()));
+    assert(view(a) == STerm::Node(Kind::Type, s0()));
+    assert(view(b) == STerm::Node(Kind::Integer, s0()));
+    let cond = Term { source_range: None, variant: If(Rc::new(t), Rc::new(a), Rc::new(b)) };
+    assert(view(cond) == STerm::Node(Kind::If, s3(view(t), view(a), view(b))));
+    let s = step(&cond);
+    assert(s is None || view(s->Some_0) != view(a));
+}
+fn canary_evaluate() {
+    broadcast use group_ok;
+    let t = Term { source_range: None, variant: True };
+    assert(view(t) == STerm::Node(Kind::True, s0()));
+    let e = evaluate(&t);
+    assert(e is Err ==> false);
+    assert(e is Ok ==> !s_value(view(e->Ok_0)));
+}
